@@ -1,6 +1,7 @@
 package props
 
 import (
+	"go/ast"
 	"fmt"
 	"go/token"
 	"go/types"
@@ -207,6 +208,44 @@ func representativeTable(c *Ctx) {
 	run, prog := c.Run, c.Prog
 	// by role: the moq function whose result fills TypeParamData.Constraint
 	fn := tmpl.CalleeOfField(prog, "TypeParamData", "Constraint")
+	if fn == nil {
+		// the data model has no such field (the type arguments are rendered into a text): by what it does —
+		// the one function of pkg/moq that returns a types.Type and walks the embedded types of an interface
+		var cands []*types.Func
+		if pk := prog.Moq[load.PkgMoq]; pk != nil {
+			for _, f := range pk.Syntax {
+				for _, d := range f.Decls {
+					fd, ok := d.(*ast.FuncDecl)
+					if !ok || fd.Body == nil {
+						continue
+					}
+					tf, _ := pk.TypesInfo.Defs[fd.Name].(*types.Func)
+					if tf == nil {
+						continue
+					}
+					sig := tf.Type().(*types.Signature)
+					if sig.Results().Len() != 1 || sig.Results().At(0).Type().String() != "go/types.Type" {
+						continue
+					}
+					walks := false
+					ast.Inspect(fd.Body, func(n ast.Node) bool {
+						if sel, ok := n.(*ast.SelectorExpr); ok && sel.Sel.Name == "EmbeddedType" {
+							if o, ok := pk.TypesInfo.Uses[sel.Sel].(*types.Func); ok && o.Pkg() != nil && o.Pkg().Path() == "go/types" {
+								walks = true
+							}
+						}
+						return !walks
+					})
+					if walks {
+						cands = append(cands, tf)
+					}
+				}
+			}
+		}
+		if len(cands) == 1 {
+			fn = cands[0]
+		}
+	}
 	if fn == nil {
 		run.Undecided("G-REPR", "role", "pkg/moq/moq.go", "the function choosing the representative type argument (explicitConstraintType) was not found")
 		return
